@@ -435,7 +435,7 @@ func Run(cfg Config) *hx.Result {
 	}
 	// 3. sampled configurations of the property's space: all schedules when affordable, and random
 	// schedules with disabled picks and early stops
-	nCfg, nSched, limit := 60, 25, 4000
+	nCfg, nSched, limit := 120, 25, 6000
 	if thorough {
 		nCfg, nSched, limit = 400, 60, 60000
 	}
